@@ -229,4 +229,19 @@ CHECKS["C05"] = {
           "user LUT file is re-read), labelled bounded. The frame analysis is syntactic (flow-insensitive ownership of locals).",
   "technique": "contract-based deductive verification: AST-generated VCs for the scaling and pixelation functions discharged by z3; "
                "AST frame (ownership / statelessness) analysis for get_emodulus; bounded native replay for the interpolation"}
+CHECKS["C11"] = {
+  "text": "Proof that the converters fint / fbool / fboolorfloat map every float, int and bool to the documented type and conversion "
+          "(truncation, != 0, False-or-float) and that the conversion is idempotent; that get_config_value_func selects the documented "
+          "converter for table-defined keys and for online_filter keys named by rule ('... soft limit' -> bool, '... polygon points' -> float "
+          "array, for one feature or a pair); that ConfigurationDict.__setitem__ stores exactly the lower-cased key with the value converted "
+          "to the key's type and stores nothing for None, an empty string, an unknown key or a blank user key; that update() hands every "
+          "entry to __setitem__.",
+  "note": "String-valued input of the converters and the two storage formats are outside the accepted subset and decided by bounded "
+          "round-trip stand-ins on every run (labelled bounded): values of every type incl. rule-named online_filter keys, numpy "
+          "scalars, unicode, '#', '=', ':' in values and user keys are written with RTDCWriter.store_metadata, read back and carried "
+          "through export and compared with the normalised originals; values loaded from a .cfg file must have the documented type "
+          "and be fixed points of assignment. Metadata carry-over of Export.hdf5 incl. rule-named keys is proved under C02. Array values "
+          "have no text form in .cfg files (not covered). Known finding D29 (online_filter min/max given as text stay strings).",
+  "technique": "contract-based deductive verification: AST-generated VCs over the converter and dictionary code discharged by z3; bounded "
+               "round-trip replay for the text and HDF5 formats"}
 NOT_APPLICABLE = {}
